@@ -57,8 +57,25 @@ impl Certificate {
 		format!("{}_{}", self.crt_name, self.key_type)
 	}
 
-	pub fn get_identifier_from_str(&self, identifier: &str) -> Result<Identifier, Error> {
+	pub fn get_identifier_from_str(
+		&self,
+		identifier: &str,
+		wildcard: bool,
+	) -> Result<Identifier, Error> {
 		let identifier = identifier.to_string();
+		// A wildcard authorization is solved with the entry configured for the wildcard name itself,
+		// any other one with the entry configured for the plain name.
+		let exact_name = if wildcard {
+			format!("*.{identifier}")
+		} else {
+			identifier.clone()
+		};
+		for d in self.identifiers.iter() {
+			if d.value == exact_name {
+				return Ok(d.clone());
+			}
+		}
+		// No exact entry (e.g. the CA did not flag a wildcard authorization): ignore the wildcard prefix.
 		for d in self.identifiers.iter() {
 			let val = match d.id_type {
 				// strip wildcards from domain before matching
@@ -143,8 +160,9 @@ impl Certificate {
 		proof: &str,
 		raw_proof: Option<String>,
 		identifier: &str,
+		wildcard: bool,
 	) -> Result<(ChallengeHookData, HookType), Error> {
-		let identifier = self.get_identifier_from_str(identifier)?;
+		let identifier = self.get_identifier_from_str(identifier, wildcard)?;
 		let mut hook_data = ChallengeHookData {
 			challenge: identifier.challenge.to_string(),
 			identifier: identifier.value.to_owned(),
